@@ -1,10 +1,10 @@
 """C04: cancellation containment -- shields hold and the right scope absorbs (scope_tree.scn, clauses C04:*)."""
-from symx.harness import scope_tree
+from symx.harness import c14_thread, scope_tree
 from symx.vloop import STUBS as LOOP_STUBS
 
 NAME = "c04_contain"
 PROP = "C04"
-STUBS = LOOP_STUBS
+STUBS = LOOP_STUBS + [x for x in c14_thread.STUBS if x not in LOOP_STUBS]
 ASSUMPTIONS = ["program: nested scopes, each level op(pre) ; inner ; op(post) with op = anyio.sleep(w), w symbolic in [0,T]; "
                "'small bounded number of cycles' = %d loop cycles" % scope_tree.K_CYCLES]
 OUTSIDE = ["nesting depth > 3, more than two environment cancels / one shield toggle", "uvloop, trio"]
@@ -89,7 +89,8 @@ def chain_step(sym, cov, D):
 
 
 MUST_REACH = MUST_REACH + ["A:cancelled-behind-shield", "A:effectively-cancelled-through-plain-ancestors",
-                           "non-cancellation-exception-through-cancelled-scope", "cancellation-filtered-out-of-exception-group"]
+                           "non-cancellation-exception-through-cancelled-scope", "cancellation-filtered-out-of-exception-group", "foreign-cancellation-through-cancelled-scope",
+                           "thread:check_cancelled-raised"]
 _units_b = units
 
 
@@ -103,6 +104,13 @@ def units(tier):  # noqa: F811
                    "params": {"props": [PROP], "D": 2, "cancel": 1, "cancel2": 0, "raise_at": (1, kind), "T": 1, "J": 1}})
         us.append({"name": "D=3 raise %s at 2 cancel=1" % kind, "fn": scope_tree.scn, "budget_s": B,
                    "params": {"props": [PROP], "D": 3, "cancel": 1, "raise_at": (2, kind), "T": 1, "J": 1, "post0": False, "shields": (False, False, False)}})
+    for lv, c in ((1, 1), (1, 0), (0, 0)):
+        us.append({"name": "D=2 foreign cancellation (CancelledError <- OSError <- AnyIO cancel) raised at %d, cancel=%d" % (lv, c), "fn": scope_tree.scn, "budget_s": B,
+                   "params": {"props": [PROP], "D": 2, "cancel": c, "raise_at": (lv, "foreign-chain"), "T": 1, "J": 1, "shields": (False, False)}})
+    # the shield also holds for a worker thread asking from_thread.check_cancelled() on behalf of its (shielded) caller
+    for cos in (True, False):
+        us.append({"name": "thread check_cancelled, caller in shielded scope, %s scope cancelled" % ("enclosing" if cos else "that"), "fn": c14_thread.scn, "budget_s": B,
+                   "params": {"n": 1, "funcs": ["chk"], "cancel": 0, "shielded_caller": True, "cancel_outside_shield": cos, "T": 1, "J": 2}})
     us.append({"name": "D=4 cancel=3 cancel2=0 shield-at-1", "fn": scope_tree.scn, "budget_s": B,
                "params": {"props": [PROP], "D": 4, "cancel": 3, "cancel2": 0, "shields": (False, True, False, False), "T": 1, "J": 1, "post0": True}})
     return us
